@@ -19,7 +19,7 @@ import (
 func buildEvy(dir string) (string, error) {
 	bin := filepath.Join(dir, "evy")
 	cmd := exec.Command("go", "build", "-o", bin, ".")
-	cmd.Dir = repoRoot()
+	cmd.Dir = c13repoRoot()
 	cmd.Env = append(os.Environ(), "GOFLAGS=-mod=mod", "GOPROXY=off", "GOSUMDB=off", "GOTOOLCHAIN=local", "CGO_ENABLED=0")
 	if out, err := cmd.CombinedOutput(); err != nil {
 		return "", fmt.Errorf("go build evy: %v: %s", err, out)
